@@ -99,10 +99,8 @@ Proof.
   { intros E; inversion E; subst. right. unfold fifo_peek, qtake. cbn. repeat split; lia. }
   destruct (reader cb len SinkMem) as [[n b] s] eqn:ER. intros E; inversion E; subst; clear E.
   apply reader_spec in ER; [|assumption|lia]. cbv zeta in ER. destruct ER as (R1 & R2 & R3 & R4).
-  specialize (R4 eq_refl). right. split; [lia|]. split; [assumption|].
-  rewrite R1, R4. rewrite Z.max_r by lia. unfold fifo_peek. rewrite qtake_ztake.
-  destruct (Z_le_gt_dec len (cb_used cb)); [rewrite Z.min_l by lia; reflexivity|].
-  rewrite Z.min_r by lia. rewrite !ztake_all by lia. reflexivity.
+  specialize (R4 eq_refl). right. split; [lia|]. split; [exact R4|].
+  rewrite R1. unfold fifo_peek. change qtake with (@ztake byte). rewrite (ztake_clip len), LA. f_equal. lia.
 Qed.
 
 Lemma zlen_abs cb : Inv cb -> zlen (abs cb) = cb_used cb.
@@ -131,9 +129,7 @@ Proof.
   replace (len =? 0) with false in P by (symmetry; apply Z.eqb_neq; lia).
   rewrite ER in P. specialize (P eq_refl). destruct P as [(? & _)|(_ & Pr & Pb)]; [lia|].
   assert (FD : fifo_drop (abs cb) len = zdrop ret (abs cb)).
-  { unfold fifo_drop. rewrite qskip_zdrop. subst ret.
-    destruct (Z_le_gt_dec len (cb_used cb)); [rewrite Z.min_l by lia; reflexivity|].
-    rewrite Z.min_r by lia. rewrite !zdrop_all by lia. reflexivity. }
+  { unfold fifo_drop. change qskip with (@zdrop byte). rewrite (zdrop_clip len), LA. f_equal. lia. }
   destruct (0 <? ret) eqn:E3; [apply Z.ltb_lt in E3 | apply Z.ltb_ge in E3].
   - destruct (dropper_Inv cb ret H ltac:(lia)) as (I & A & U). split; [assumption|]. right.
     repeat split; try assumption; try reflexivity; try lia. rewrite A, FD. reflexivity.
@@ -153,14 +149,18 @@ Proof.
   pose proof (zlen_abs _ H) as LA.
   assert (Z0 : forall c, Inv c -> c = cb -> Inv c /\ cb_maxsize c = cb_maxsize cb /\ cb_overwrite c = cb_overwrite cb /\
             [] = fifo_peek (abs cb) 0 /\ abs c = fifo_drop (abs cb) 0 /\ 0 <= cb_used cb /\ zlen (@nil byte) = 0).
-  { intros c Hc ->. unfold fifo_peek, fifo_drop, qtake, qskip. cbn. repeat split; try assumption; lia. }
+  { intros c Hc ->. split; [assumption|]. unfold fifo_peek, fifo_drop, qtake, qskip. cbn. repeat split; try reflexivity; try lia. }
   destruct (len <? -1) eqn:E1; [apply Z.ltb_lt in E1 | apply Z.ltb_ge in E1].
   { intros E; inversion E; subst. cbv zeta. change (Z.max 0 (-1)) with 0.
-    destruct (Z0 cb' H eq_refl) as (a & b & c & d & e & f & g). repeat split; try assumption; try lia. }
+    destruct (Z0 _ H eq_refl) as (a & b & c & d & e & f & g).
+    split; [exact a|]. split; [exact b|]. split; [exact c|]. split; [exact d|]. split; [exact e|]. split; [lia|].
+    split; [exact g|]. intros; reflexivity. }
   set (l := if len =? -1 then cb_used cb else len).
   destruct (0 <? l) eqn:E2; [apply Z.ltb_lt in E2 | apply Z.ltb_ge in E2].
   2:{ intros E; inversion E; subst. cbv zeta. change (Z.max 0 0) with 0.
-      destruct (Z0 cb' H eq_refl) as (a & b & c & d & e & f & g). repeat split; try assumption; try lia. }
+      destruct (Z0 _ H eq_refl) as (a & b & c & d & e & f & g).
+      split; [exact a|]. split; [exact b|]. split; [exact c|]. split; [exact d|]. split; [exact e|]. split; [lia|].
+      split; [exact g|]. intros; lia. }
   destruct (reader cb l (SinkFd fd)) as [[n b] s] eqn:ER.
   assert (G : forall fdx, (if 0 <? n then dropper cb n else cb, n, b, fdx) = (cb', ret, bytes, fd') ->
      Inv cb' /\ cb_maxsize cb' = cb_maxsize cb /\ cb_overwrite cb' = cb_overwrite cb /\
@@ -168,11 +168,12 @@ Proof.
      bytes = fifo_peek (abs cb) k /\ abs cb' = fifo_drop (abs cb) k /\ k <= cb_used cb /\ zlen bytes = k /\ (len < -1 -> ret = -1)).
   { intros fdx E; inversion E; subst; clear E. cbv zeta.
     apply reader_spec in ER; [|assumption|lia]. cbv zeta in ER. destruct ER as (R1 & R2 & R3 & _).
-    unfold fifo_peek, fifo_drop. rewrite qtake_ztake, qskip_zdrop.
+    unfold fifo_peek, fifo_drop. change qtake with (@ztake byte); change qskip with (@zdrop byte).
     destruct (0 <? ret) eqn:E3; [apply Z.ltb_lt in E3 | apply Z.ltb_ge in E3].
     - destruct (dropper_Inv cb ret H ltac:(lia)) as (I & A & U).
-      rewrite Z.max_r in * by lia. rewrite R1, zlen_ztake, LA. repeat split; try assumption; try reflexivity; try lia.
+      rewrite Z.max_r in * by lia. rewrite R1, zlen_ztake, LA.
+      split; [exact I|]. repeat split; try assumption; try reflexivity; try lia.
     - rewrite Z.max_l in * by lia. rewrite R1. rewrite zdrop_neg, ztake_neg by lia.
-      repeat split; try assumption; try reflexivity; try lia. }
+      split; [exact H|]. repeat split; try assumption; try reflexivity; try lia. }
   destruct s; intros E; eapply G; exact E.
 Qed.
